@@ -117,6 +117,24 @@ PROPS = {
         'trusted': ["doublestar v4.8.1 modelled (not verified) for the pattern alphabet; path.Clean modelled on segment lists"],
         'assumptions': ["patterns over {literal, *, **, /}"],
     },
+    'C13': {
+        'proofs': ['Ww.Proofs.C13'],
+        'gen_sections': [],
+        'drivers': [{'name': 'c13'}],
+        'reasons': ['C13.'],
+        'class_fields': {'login13': ['variant', 'ep', 'status', 'hascookie', 'parcalled', 'p_acr', 'p_locale', 'p_prompt', 'p_redirect'], 'fresh13': ['dups']},
+        'nontrivial': {'login13': lambda f: f.get('status') in ('302', '307', '500')},
+        'rule': "c13 driver: /oauth2/login and /oauth2/logout for Host x X-Forwarded-Host (configured, unconfigured, upper case, with port) x path prefix x level x locale x prompt, 4 variants "
+                "(1-3 ingresses with path prefixes, PAR on/off, client secret vs private-key JWT, three ACR defaults); the provider-side parameters (front channel or PAR body), the decrypted login cookie, the verified client "
+                "assertion and a scan of everything browser-visible are observed; a freshness summary counts repeats of state/nonce/verifier/jti over all visits (a test, not a proof). distinct = (variant, endpoint, status, parameter values).",
+        'level_text': "Proof: the authorization-request builder binds state/nonce/redirect_uri/S256(verifier) to the sealed cookie, names only a CONFIGURED ingress matching Host or X-Forwarded-Host (none => no request at all), and "
+                      "emits only allowed acr_values / ui_locales / prompt values with max_age=0 on prompt - for all inputs; uniqueness of state/nonce/verifier across visits follows from an injective random source. Partial: unpredictability "
+                      "(>= 256 bits) is an assumption on crypto/rand; the builder model is tied to the real endpoints by the driver, which also verifies client assertions and scans for credentials.",
+        'level_note': "Trusted: Lean kernel; crypto/rand (H-RND); S256 modelled as an injective symbol and recomputed in the harness; golang.org/x/oauth2 and url.Values encoding; fake provider as observer.",
+        'technique': 'Lean 4 proof of the request-builder decision logic + freshness from an injective oracle; differential runs incl. PAR bodies and assertion verification',
+        'trusted': ["H-RND", "S256 as injective symbol"],
+        'assumptions': ["H-RND"],
+    },
     'C15': {
         'proofs': ['Ww.Proofs.C15'],
         'gen_sections': ['Routes', 'pkg/router/router.go', 'pkg/router/paths/paths.go'],
